@@ -31,6 +31,127 @@ def split_closure(node):
     return None, node
 
 
+def semantic_cases(model, R, func, name, owner_kind):
+    """Fallback for a join/meet that does not follow the lookup template: the function is read as a case analysis
+    (path condition -> returned concept), conditions are compiled with C08's predicate algebra, every returned concept is
+    given an extent term (self -> a, other -> b, infimum -> Z, supremum -> U, mapping[t] -> t, closure(a | b) -> the free
+    variable J, closure of an intersection of extents -> itself) and the result is compared with the specification
+    (meet: a & b, join: J) on every admissible occupancy pattern.  ``owner_kind``: 'Atom' / 'Infimum' / 'Supremum' adds what
+    is known about ``self`` in that subclass.  Returns True if a verdict (PASS or VIOLATION) was recorded."""
+    from .c08 import make_hook, make_var_of, SORT
+    from ..astutil import context_of
+    self_, other = func.params[:2]
+    env = Env(func)
+    used = set()
+    var_of0 = make_var_of(self_, other)
+
+    def var_of(n):
+        v = var_of0(n)
+        if v:
+            used.add(v)
+        return v
+    hook = make_hook(self_, other, used)
+
+    def extent_term(n):
+        n = env.expand(n)
+        t = hook.concept_term(n)
+        if t is not None:
+            return t
+        if isinstance(n, ast.Subscript) and chain(n.value) and chain(n.value)[-1] == '_mapping':
+            closure, arg = split_closure(n.slice)
+            term = bitalg.compile_term(arg, var_of, SORT.get)
+            if 'P' in term.sorts:
+                raise Unrecognised('mapping key over intents')
+            if closure is None or _is_intersection(term):
+                return term            # an intersection of extents is an extent: the closure is the identity on it
+            if all(term({'a': a_, 'b': b_, 'U': 1, 'Z': 0, 'J': 1, bitalg.OUTSIDE: 0}) == (a_ | b_) for a_ in (0, 1) for b_ in (0, 1)):
+                used.add('J')
+                return bitalg.Term(lambda r: r['J'], 'J', frozenset('O'))
+            raise Unrecognised(f'closure of {term.text}')
+        raise Unrecognised(f'returned concept {src(n)[:60]}')
+
+    rets = sorted((r for r in walk(func.body) if isinstance(r, ast.Return) and r.value is not None), key=lambda r: r.lineno)
+    if not rets:
+        return False
+    cases = []
+    try:
+        for r in rets:
+            ctx = context_of(func.body, r)
+            if ctx is None or any(c[0] not in ('if', 'guard') for c in ctx):
+                return False
+            conds = [(bitalg.compile_pred(env.expand(c[1]), var_of, SORT.get, hook=hook), c[2]) for c in ctx]
+            cases.append((conds, extent_term(r.value), r))
+    except (Unrecognised, bitalg.SortError):
+        return False
+    if used & {'A', 'B', 'UI', 'ZI'}:
+        return False
+    variables = ['a', 'b', 'U', 'Z', 'J']
+
+    def row_ok(r):
+        return r['U'] == 1 and (not r['Z'] or (r['a'] and r['b'])) and (r['J'] or not (r['a'] or r['b']))
+
+    def pattern_ok(occ):
+        rows_ = [r for r in occ if not r[bitalg.OUTSIDE]]
+        if owner_kind == 'Infimum':
+            return all(r['a'] == r['Z'] for r in rows_)
+        if owner_kind == 'Supremum':
+            return all(r['a'] == 1 for r in rows_)
+        if owner_kind == 'Atom':
+            # a covers Z: the extent a & b lies between Z and a, hence equals one of them; and a != Z
+            meet_is_z = all((r['a'] & r['b']) == r['Z'] for r in rows_)
+            meet_is_a = all((r['a'] & r['b']) == r['a'] for r in rows_)
+            return (meet_is_z or meet_is_a) and any(r['a'] != r['Z'] for r in rows_)
+        return True
+    spec = (lambda r: r['a'] & r['b']) if name == 'meet' else (lambda r: r['J'])
+    bad = None
+    n_pat = 0
+    for occ in bitalg.patterns(variables, row_ok, pattern_ok):
+        n_pat += 1
+        chosen = None
+        for conds, term, r in cases:
+            if all(bool(p(occ)) == pol for p, pol in conds):
+                chosen = (term, r)
+                break
+        if chosen is None:
+            return False          # falls off the end on some pattern: not a total case analysis
+        term, r = chosen
+        rows_ = [row for row in occ if not row[bitalg.OUTSIDE]]
+        if any(term(row) != spec(row) for row in rows_):
+            bad = (rows_, term, r)
+            break
+    slot = f'{func.cls.name if func.cls else ""}.{func.name}: {name} decided as a case analysis over extents' + (f' (self is the {owner_kind.lower()})' if owner_kind else '')
+    if bad is None:
+        R.ok('BOUNDS', func, func.node, slot, found=f'{len(cases)} cases agree with {"a & b" if name == "meet" else "closure(a | b)"} on {n_pat} occupancy patterns')
+    else:
+        rows_, term, r = bad
+        objs = {f'o{i}': {k: row[k] for k in ('a', 'b', 'Z', 'J')} for i, row in enumerate(rows_, 1)}
+        R.bad('BOUNDS', func, r, slot, 'extent a & b' if name == 'meet' else 'extent closure(a | b)', f'returns {src(r.value)[:60]} with extent {term.text}',
+              extra={'counterexample objects (in x / in y / in bottom / in the join)': objs,
+                     'note': 'realised by the context whose extent family is the intersection-closure of {all, join, x, y, bottom}'})
+    return True
+
+
+def _follows_template(func):
+    rets = [n for n in walk(func.body) if isinstance(n, ast.Return)]
+    if len(rets) != 1:
+        return False
+    v = Env(func).expand(rets[0].value)
+    return isinstance(v, ast.Subscript) and bool(chain(v.value)) and chain(v.value)[-1] == '_mapping'
+
+
+def _is_intersection(term):
+    """term == AND of a subset of {a, b, U, Z} as a Boolean function"""
+    import itertools
+    rows_ = [dict(zip(('a', 'b', 'Z'), bits)) for bits in itertools.product((0, 1), repeat=3)]
+    for r in rows_:
+        r.update({'U': 1, 'J': 1, 'A': 0, 'B': 0, bitalg.OUTSIDE: 0})
+    for k in range(0, 4):
+        for sub in itertools.combinations(('a', 'b', 'Z'), k):
+            if all(term(r) == min([r[v] for v in sub] + [1]) for r in rows_):
+                return True
+    return False
+
+
 def binary(model, R):
     cls = concept_cls(model)
     table = {'join': ('a | b', lambda r: r['a'] | r['b']), 'meet': ('a & b', lambda r: r['a'] & r['b'])}
@@ -39,10 +160,17 @@ def binary(model, R):
         base = {'__or__': 'join', '__and__': 'meet'}.get(name, name)
         if hasattr(target, 'node'):
             targets.append((base, target))
+        elif isinstance(target, ast.Name) and target.id in sub.methods and target.id in ('join', 'meet') \
+                and {'__or__': 'join', '__and__': 'meet'}.get(name) == target.id:
+            R.ok('BOUNDS', f'{sub.key}.{name}', sub.node, f'{sub.name}.{name} is {target.id}')
         else:
             R.unknown('BOUNDS', f'{sub.key}.{name}', sub.node, f'{sub.name}.{name} (override)', 'rebinding that is not a method definition')
     for name, func in targets:
         op_text, spec = table[name]
+        owner = func.cls.name if func.cls is not None and func.cls.name in ('Atom', 'Infimum', 'Supremum') else None
+        if owner is not None or not _follows_template(func):
+            if semantic_cases(model, R, func, name, owner):
+                continue
         self_, other = func.params[:2]
         env = Env(func)
         rets = [n for n in walk(func.body) if isinstance(n, ast.Return)]
